@@ -272,6 +272,9 @@ class _Worker:
                 return json.loads(buf.decode())
 
     def call(self, case: dict, timeout: float = WATCHDOG_S) -> dict:
+        if self.restarts >= 3 and case.get("kind") == "gauss":
+            # the hang is established (three watchdog kills); do not spend 20 s on every further Gaussian case
+            return {"ok": False, "err": "Skipped", "msg": "skipped after repeated hangs", "calls": [], "log": []}
         if self.proc is None or self.proc.poll() is not None:
             self._start()
         self.proc.stdin.write((json.dumps(case) + "\n").encode())
@@ -505,13 +508,27 @@ def _gen_case(rng, kind: str, level: str) -> dict:
     return case
 
 
+def _region_class(case) -> str:
+    a, H, W = case["a"], case["nrow"], case["ncol"]
+    return ("none" if a == [0, 0] or case["keep"] else "wraps" if _wraps(H, a[0]) or _wraps(W, a[1]) else
+            "full" if a == [H, W] else "odd" if (a[0] % 2 or a[1] % 2) else "even")
+
+
 def _bucket(case, res) -> str:
-    a = case["a"]
+    return f"{case['level']}/{case['kind']}{('-' + case['dir']) if case['kind'] == 'half' else ''}"
+
+
+def _histograms(ctx, case, res):
+    """side histograms of the generator (do not count as evaluations)"""
     H, W = case["nrow"], case["ncol"]
-    reg = ("none" if a == [0, 0] or case["keep"] else "wrap" if _wraps(H, a[0]) or _wraps(W, a[1]) else
-           "full" if a == [H, W] else "some")
-    return (f"{case['level']}/{case['kind']}{('-' + case['dir']) if case['kind'] == 'half' else ''}/{case['mtype']}"
-            f"/keep{case['keep']}/seed{case['use_seed']}/region-{reg}")
+    keys = [f"mask/{case['mtype']}", f"region/{_region_class(case)}", f"keep_acs/{case['keep']}", f"use_seed/{case['use_seed']}",
+            f"batch/{case['B']}", f"rows/{'odd' if H % 2 else 'even'}-cols/{'odd' if W % 2 else 'even'}",
+            f"size/{'6-12' if max(H, W) <= 13 else '13-24' if max(H, W) <= 24 else '25-40'}",
+            f"acs_mask/{'given' if case['acs'] else 'none'}", f"outcome/{'ok' if res.get('ok') else res.get('err')}"]
+    if case["kind"] != "half":
+        keys += [f"ratio/{p}:{q}" for p, q in case["ratios"][:1]] + [f"ratios/{len(case['ratios'])}"]
+    for k in keys:
+        ctx.hist[k] = ctx.hist.get(k, 0) + 1
 
 
 def _nontrivial(case, res) -> bool:
@@ -739,8 +756,8 @@ def _violations(case, res, seen):
 # ==================================================================================================
 def _plan(ctx: Ctx):
     """(kind, level) list of the correspondence phase"""
-    n_split = ctx.budget(70, 900)
-    n_fwd = ctx.budget(40, 500)
+    n_split = ctx.budget(150, 1500)
+    n_fwd = ctx.budget(80, 800)
     plan = []
     for kind in ("gauss", "uniform", "half"):
         plan += [(kind, "split")] * (n_split if kind != "half" else n_split // 2)
@@ -788,7 +805,11 @@ def correspondence(ctx: Ctx):
     try:
         for case in cases:
             res = _W.call(case)
+            if res.get("err") == "Skipped":
+                excluded["skipped-after-hangs"] = excluded.get("skipped-after-hangs", 0) + 1
+                continue
             _RESULTS.append((case, res))
+            _histograms(ctx, case, res)
             ln, ans, why = _protocol(case, res)
             if ln is None:
                 excluded[why] = excluded.get(why, 0) + 1
@@ -817,9 +838,9 @@ def oracle(ctx: Ctx, deep: bool = False):
         # (b) the pipeline stage as build_mri_transforms builds it, and more split / forward cases (use_seed off included)
         extra = []
         for kind in ("gauss", "uniform", "half"):
-            for _ in range(ctx.budget(3, 30) * (4 if deep else 1)):
+            for _ in range(ctx.budget(6, 60) * (4 if deep else 1)):
                 extra.append(_gen_case(rng, kind, "pipeline"))
-            for _ in range(ctx.budget(25, 400) * (4 if deep else 1)):
+            for _ in range(ctx.budget(60, 700) * (4 if deep else 1)):
                 c = _gen_case(rng, kind, rng.choice(["split", "forward"]))
                 if rng.random() < 0.4:
                     c["use_seed"] = 0
@@ -827,7 +848,7 @@ def oracle(ctx: Ctx, deep: bool = False):
                         c["seed"] = None
                 extra.append(c)
         # high ratios with protected regions: where the pre-repair tree hung
-        for _ in range(ctx.budget(20, 300) * (4 if deep else 1)):
+        for _ in range(ctx.budget(40, 500) * (4 if deep else 1)):
             c = _gen_case(rng, "gauss", "split")
             c["ratios"] = [rng.choice([(19, 20), (9, 10), (4, 5)])]
             c["a"] = [rng.randint(2, c["nrow"]), rng.randint(2, c["ncol"])]
@@ -835,6 +856,9 @@ def oracle(ctx: Ctx, deep: bool = False):
             extra.append(c)
         for case in extra:
             res = _W.call(case)
+            if res.get("err") == "Skipped":
+                continue
+            _histograms(ctx, case, res)
             ctx.count(json.dumps(case, sort_keys=True), _nontrivial(case, res), bucket="oracle/" + _bucket(case, res),
                       sample={"case": {k: case[k] for k in ("kind", "level", "nrow", "ncol", "a", "keep", "ratios")},
                               "ok": res.get("ok"), "target_cells": [sum(t) for t in res.get("target", [])]})
